@@ -21,7 +21,9 @@ import (
 	"net/http/httptest"
 	"net/url"
 	"os"
+	"regexp"
 	"sort"
+	"strings"
 	"time"
 
 	"github.com/inbucket/inbucket/v3/pkg/config"
@@ -225,9 +227,24 @@ func (e *namingEnv) lookups(rows []namingRow, id string) []namingLookup {
 			}
 			out = append(out, lk)
 		}
+		// REST and web UI: the message source (the Received line the delivery path wrote names the mailbox)
+		for _, v := range [][2]string{{"rest-source", "/api/v1/mailbox/"}, {"web-source", "/serve/mailbox/"}} {
+			lk := namingLookup{Via: v[0], Role: r.Role, Q: r.Q, RcptOK: r.Rcpt.OK}
+			st, body := httpGet(v[1] + seg + "/" + id + "/source")
+			lk.Status = st
+			if st == 200 && strings.Contains(string(body), "Subject: naming probe") {
+				lk.Found = true
+				if m := recvdFor.FindSubmatch(body); m != nil {
+					lk.Mailbox = string(m[1])
+				}
+			}
+			out = append(out, lk)
+		}
 	}
 	return out
 }
+
+var recvdFor = regexp.MustCompile(`(?m)^\s+for <([^\r\n]*)>; `)
 
 // deliver plays one SMTP session: EHLO, MAIL, RCPT TO:<addr>, DATA, message, QUIT.
 func (e *namingEnv) deliver(sid int, addr string, ev tr.Ev) {
